@@ -256,7 +256,8 @@ PROPS = {
                  {'component': 'frame', 'profile': 'threads', 'quick': 1, 'thorough': 1},
                  {'component': 'subitem', 'profile': 'grid', 'quick': 1, 'thorough': 1},
                  {'component': 'tty', 'profile': 'tty', 'quick': 180, 'thorough': 1500},
-                 {'component': 'gpsdtx', 'profile': 'gpsdtx', 'quick': 180, 'thorough': 1500}],
+                 {'component': 'gpsdtx', 'profile': 'gpsdtx', 'quick': 180, 'thorough': 1500},
+                 {'component': 'level', 'profile': 'items', 'quick': 300, 'thorough': 2000, 'project': 'result+sent'}],
         'trusted': ['stub serial.Serial (write/baudrate/is_open recorded), stub control socket (connect/sendall/recv scripted)'],
         'assumptions': ['partial: the OS serial driver and gpsd themselves; gpsd replies are ASCII'],
     },
